@@ -455,19 +455,24 @@ cdef class CPUDomainManager(DomainManagerBase):
         boundary conditions.
 
         """
-        # compute the cell sizes
-        self._compute_cell_size_for_binning()
-
         # Periodicity is handled by adjusting particles according to a
         # given cubic domain box. In parallel, it is expected that the
         # appropriate parallel NNPS is responsible for the creation of
         # ghost particles.
-        if (self.is_periodic or self.is_mirror) and not self.in_parallel:
+        cdef bint make_ghosts = ((self.is_periodic or self.is_mirror) and
+                                 not self.in_parallel)
+        if make_ghosts:
             self._update_from_gpu()
 
-            # remove periodic/mirror ghost particles from a previous step
+            # remove periodic/mirror ghost particles from a previous step,
+            # their (stale) smoothing lengths must not influence the cell
+            # size and hence the thickness of the new ghost layer.
             self._remove_ghosts()
 
+        # compute the cell sizes
+        self._compute_cell_size_for_binning()
+
+        if make_ghosts:
             if self.is_periodic:
                 # box-wrap current particles for periodicity
                 self._box_wrap_periodic()
